@@ -144,6 +144,10 @@ class EndpointLog:
         self.keep = []
         self.cookie_known = set()
         self.timers = {}
+        self.iterations = []     # (kind, args, tape, now): one per main_loop iteration (plus forced timer writes)
+        self.iter_expected = []
+        self.cookie_secret = None
+        self.conf_keys = []      # (my_addr, peer_addr, conf index)
 
     def conf_id(self, conf):
         for i, c in enumerate(self.confs):
@@ -155,6 +159,10 @@ class EndpointLog:
     def tables(self):
         return [self.t_ike, self.t_child, self.t_dh, self.t_prf, self.t_sign, self.t_verify, self.t_ser, self.t_cookie,
                 self.t_addr]
+
+    def endpoint_input(self):
+        return [[[my, peer, conf_sx(self.confs[ci])] for (my, peer, ci) in self.conf_keys], self.cookie_secret or b'',
+                self.tables(), [[k, a, t, n] for (k, a, t, n) in self.iterations]]
 
     def model_input(self):
         return [[conf_sx(c) for c in self.confs], self.tables(),
@@ -178,6 +186,7 @@ class HdlRecorder:
         self.pending_new = {}     # id(new IkeSa created inside a handler) -> (object, creator)
         self._stack = None
         self.problems = []
+        self.routed = None
 
     # -- helpers --------------------------------------------------------------------------------
     def log(self):
@@ -556,6 +565,8 @@ class HdlRecorder:
                     return r
                 finally:
                     rec.end()
+                    if kind == 1:
+                        rec.routed = rec.sa_id(self_)
                     if ok:
                         args = argf(self_, *a, **k)
                         if args is not None:
@@ -584,8 +595,79 @@ class HdlRecorder:
             rec.check_registrations(self_)
             return r
         st.enter_context(mock.patch.object(ikesacontroller.IkeSaController, 'dispatch_message', dispatch))
+        inner_loop = world.Endpoint.loop_once
+
+        def loop_once(self_, udp_in=None, xfrm_in=None, control=False):
+            name = self_.name
+            if name not in rec.logs:
+                rec.logs[name] = EndpointLog()
+            lg = rec.logs[name]
+            if lg.cookie_secret is None:
+                lg.cookie_secret = bytes(self_.controller.cookie_secret)
+                for (my, peer), c in self_.configuration.ike_configurations.items():
+                    lg.conf_keys.append((int(my), int(peer), lg.conf_id(c)))
+                    for a in (my, peer):
+                        if not any(k == int(a) for k, _ in lg.t_addr):
+                            lg.t_addr.append([int(a), bytes(a.packed)])
+            start = len(lg.calls)
+            now = int(rec.sim.clock)
+            rec.routed = None
+            kind, args = 3, []
+            try:
+                if udp_in is not None:
+                    from ipaddress import ip_address
+                    kind = 0
+                    try:
+                        with rec.quiet():
+                            h = hdr_sx(Message.parse(bytes(udp_in[2]), header_only=True))
+                    except Exception:
+                        h = None
+                    args = [h, int(ip_address(udp_in[0])), int(ip_address(udp_in[1])), None]
+                elif xfrm_in is not None:
+                    from ipaddress import ip_network
+                    from message import TrafficSelector
+                    header, msg, attributes = xfrm.Xfrm.parse_message(bytes(xfrm_in))
+                    if header.type == xfrm.XFRM_MSG_ACQUIRE:
+                        family = attributes[xfrm.XFRMA_TMPL].family
+                        peer = msg.id.daddr.to_ipaddr(family)
+                        my = msg.saddr.to_ipaddr(family)
+                        sf = msg.sel.family
+                        tsi = TrafficSelector.from_network(ip_network(msg.sel.saddr.to_ipaddr(sf)), msg.sel.sport, msg.sel.proto)
+                        tsr = TrafficSelector.from_network(ip_network(msg.sel.daddr.to_ipaddr(sf)), msg.sel.dport, msg.sel.proto)
+                        kind, args = 1, [int(my), int(peer), ts_sx(tsi), ts_sx(tsr), int(msg.policy.index >> 3)]
+                    elif header.type == xfrm.XFRM_MSG_EXPIRE:
+                        kind, args = 2, [bytes(msg.state.id.spi), bool(msg.hard)]
+            except Exception:
+                kind, args = 3, []
+            try:
+                return inner_loop(self_, udp_in=udp_in, xfrm_in=xfrm_in, control=control)
+            finally:
+                calls = lg.calls[start:]
+                tape = []
+                kops = []
+                for (k, sid, a, t, n), e in zip(calls, lg.expected[start:]):
+                    if k == 10:
+                        lg.iterations.append((4, [sid] + list(a), [], now))
+                        lg.iter_expected.append('SKIP')
+                    tape += t
+                    kops += e[2]
+                    if k == 1 and kind == 0 and args[3] is None:
+                        args[3] = [a[1], a[2], a[3]]
+                lg.iterations.append((kind, args, tape, now))
+                table = [[lg.ids.get(id(sa), -1), rec.state_sx(sa)] for sa in self_.controller.ike_sas]
+                lg.iter_expected.append([table, [rec.msg_of_bytes(d) for (_, _, d) in self_.sent], kops, 0, rec.routed])
+        st.enter_context(mock.patch.object(world.Endpoint, 'loop_once', loop_once))
         self._stack = st
         return self
+
+    @contextlib.contextmanager
+    def quiet(self):
+        d = self.depth
+        self.depth = 99          # harness-made parses are not part of any call
+        try:
+            yield
+        finally:
+            self.depth = d
 
     def __exit__(self, *a):
         self._stack.close()
